@@ -500,6 +500,11 @@ def check_grid_case(case):
         n_tr = obs['reports'].count(trailer)
         if obs['closed'] and n_tr:
             sigs.append(('after-close:raw', 'trailer reported although the agent closed (%s): %r' % (tag, obs['reports'])))
+        if any(n[0] == 1 for n in obs['notifs']):
+            # the reference deframer of the property (marker, 19 <= length <= 4096, known type) extracts this frame, so
+            # the agent must not call it a framing violation
+            sigs.append(('header-error-on-well-framed:raw', 'Message Header Error %r for a frame the reference deframer '
+                         'extracts (%s): type %d length %d' % (obs['notifs'], tag, ty, ln)))
         if not obs['closed'] and obs['state'] == 'ESTABLISHED' and n_tr != 1:
             sigs.append(('trailer-count:raw', 'session up but trailer reported %d times (%s)' % (n_tr, tag)))
         key = (obs['reports'], obs['written'], obs['closed'], obs['state'])
